@@ -16,6 +16,7 @@ inductive Val where
   | recur (id : Nat)                      -- the built-in `recur` of iterator `id`
   | errProto (kind : String)              -- `ValueErr`, `Err`, ...
   | errw (kind msg : String)              -- an error wrapped as a value (`ValueErr.new("m")`)
+  | diamond                               -- `<>`: standard input
   deriving Inhabited
 
 structure Frame where
@@ -73,6 +74,7 @@ def Val.inspect : Val → String
   | .recur _ => "<builtin>"
   | .errProto k => k
   | .errw k m => "[" ++ k ++ ": " ++ m ++ "]"
+  | .diamond => "<diamond>"
 def inspectList : List Val → List String
   | [] => []
   | x :: xs => x.inspect :: inspectList xs
